@@ -59,6 +59,10 @@ TRUSTED = [
     "structure terms of WB/Lemmas/C07Terms.lean are a hand transcription of the formula classes (atoms E, delta, Omega, "
     "morb, spin, metric; products / sums / epsilon contractions as in formula/covariant.py and calculators/static.py); a "
     "transcription error or a changed declaration shows up as a failed kernel check of the regenerated table",
+    "the point group is declared to the code by PointSymmetry objects or by generator strings built from the documented "
+    "meaning of the names of dict_sym (own matrix tables; products of one to three, preferably non-commuting, named "
+    "operations); the code's group must equal the group the model was averaged over (from_string_prod itself is "
+    "modelled and proved in C09)",
     "not modelled (oracle only): Data_K / calculators / formulas, TABresult.find_grid, adaptive refinement "
     "(KpointBZparallel.divide, exclude_equiv_points), parallel execution",
     "the symmetric test models are built by the harness (explicit group average of a random Hermitian real-space "
